@@ -272,3 +272,163 @@ pub fn ref_substr_range(n: usize, idx: i64, len: Option<i64>) -> (usize, usize) 
     };
     (start as usize, end as usize)
 }
+
+// ---------------------------------------------------------------------------------
+// Oracle stubs for the comparison matrices (C07 / C09): "dispatch modulo conversion"
+//   str_to_number(s)  ->  S2N_R   (one symbolic Option<f64>, never Some(NaN)); calls are counted
+//   to_string(v)      ->  real text for strings; TS_A / TS_B (symbolic 1-char strings) for the two designated
+//                         container operands; "" for scalars (whose text js_op computes eagerly and discards)
+// Under native replay no stub is active; operands are then BUILT from the model's oracle values
+// (a string whose JS numeric value is exactly R, an array whose text is exactly S), so the model replays faithfully.
+// ---------------------------------------------------------------------------------
+
+pub static mut S2N_R: Option<f64> = None;
+pub static mut S2N_CALLS: u32 = 0;
+pub static mut TS_PTR_A: *const Value = std::ptr::null();
+pub static mut TS_PTR_B: *const Value = std::ptr::null();
+pub static mut TS_A: char = 'a';
+pub static mut TS_B: char = 'a';
+
+pub fn s2n_oracle<S: AsRef<str>>(s: S) -> Option<f64> {
+    unsafe {
+        S2N_CALLS += 1;
+        // the text handed to the conversion must be that of a string-like operand: the marker "x" of a
+        // string-with-meaning, a designated container's text, "[object Object]" or "" - never a scalar's text ("#")
+        let t = s.as_ref();
+        assert!(t != "#", "string-to-number applied to the text of a scalar operand");
+        S2N_R
+    }
+}
+
+pub fn to_string_oracle(v: &Value) -> String {
+    unsafe {
+        match v {
+            Value::String(s) => s.clone(),
+            // the text of an object is a constant; its numeric meaning (NaN) is a corpus fact
+            Value::Object(_) => String::from("[object Object]"),
+            Value::Array(a) if a.len() == 0 => String::new(),
+            Value::Array(_) => {
+                let mut s = String::with_capacity(4);
+                if std::ptr::eq(v, TS_PTR_A) {
+                    s.push(TS_A);
+                } else if std::ptr::eq(v, TS_PTR_B) {
+                    s.push(TS_B);
+                } else {
+                    s.push('x');
+                }
+                s
+            }
+            // scalars: js_op computes this text eagerly and must discard it
+            _ => String::from("#"),
+        }
+    }
+}
+
+/// the symbolic numeric meaning of "the" string-like operand of a mixed pair: None (non-numeric) or any non-NaN double
+pub fn oracle_setup<const A: u32, const B: u32, const C: u32, const D: u32>() -> Option<f64> {
+    let has = in_bool::<A>();
+    let r = in_f64::<B>();
+    assume(!r.is_nan());
+    let ca = in_char::<C>();
+    let cb = in_char::<D>();
+    // '#' is the marker text of scalars in to_string_oracle
+    assume(ca != '#' && cb != '#');
+    unsafe {
+        S2N_R = if has { Some(r) } else { None };
+        S2N_CALLS = 0;
+        TS_A = ca;
+        TS_B = cb;
+        S2N_R
+    }
+}
+
+/// a JSON string whose JS numeric value is exactly `r` (None: a non-numeric string). Content is irrelevant under Kani.
+#[cfg(kani)]
+pub fn string_meaning(_r: Option<f64>) -> String {
+    String::from("x")
+}
+#[cfg(verif_replay)]
+pub fn string_meaning(r: Option<f64>) -> String {
+    match r {
+        None => String::from("x"),
+        Some(f) if f == f64::INFINITY => String::from("Infinity"),
+        Some(f) if f == f64::NEG_INFINITY => String::from("-Infinity"),
+        Some(f) => format!("{:?}", f),
+    }
+}
+
+/// 1-char string
+pub fn str1(c: char) -> String {
+    let mut s = String::with_capacity(4);
+    s.push(c);
+    s
+}
+/// up to two fully symbolic characters: (length, chars); `txt_string` builds the String
+#[derive(Clone, Copy)]
+pub struct Txt {
+    pub n: usize,
+    pub c: [char; 2],
+}
+pub fn in_txt2<const N: u32, const A: u32, const B: u32>() -> Txt {
+    let n = in_below::<N>(3) as usize;
+    let c0 = if n > 0 { in_char::<A>() } else { 'a' };
+    let c1 = if n > 1 { in_char::<B>() } else { 'a' };
+    Txt { n, c: [c0, c1] }
+}
+pub fn txt1(c: char) -> Txt {
+    Txt { n: 1, c: [c, 'a'] }
+}
+pub fn txt0() -> Txt {
+    Txt { n: 0, c: ['a', 'a'] }
+}
+pub fn txt_string(t: Txt) -> String {
+    let mut s = String::with_capacity(8);
+    if t.n > 0 {
+        s.push(t.c[0]);
+    }
+    if t.n > 1 {
+        s.push(t.c[1]);
+    }
+    s
+}
+pub fn txt_eq(a: Txt, b: Txt) -> bool {
+    a.n == b.n && (a.n < 1 || a.c[0] == b.c[0]) && (a.n < 2 || a.c[1] == b.c[1])
+}
+/// lexicographic comparison by code point (reference): -1 / 0 / 1
+pub fn txt_cmp(a: Txt, b: Txt) -> i32 {
+    let mut k = 0;
+    while k < 2 {
+        if k >= a.n && k >= b.n {
+            return 0;
+        }
+        if k >= a.n {
+            return -1;
+        }
+        if k >= b.n {
+            return 1;
+        }
+        if (a.c[k] as u32) < (b.c[k] as u32) {
+            return -1;
+        }
+        if (a.c[k] as u32) > (b.c[k] as u32) {
+            return 1;
+        }
+        k += 1;
+    }
+    0
+}
+
+/// JsonLogic truthiness table, from the statement of C06
+pub fn jl_truthy(v: &Value) -> bool {
+    match v {
+        Value::Null => false,
+        Value::Bool(b) => *b,
+        Value::Number(n) => match n.as_f64() {
+            Some(f) => f != 0.0,
+            None => false,
+        },
+        Value::String(s) => s.len() != 0,
+        Value::Array(a) => a.len() != 0,
+        Value::Object(_) => true,
+    }
+}
